@@ -183,8 +183,9 @@ def check_nodes(nb, table, target):
             own_bucket = cover and cover[0]["lo"] <= key[0] <= cover[0]["hi"]
             return [("nodes-deleted-served-own-bucket" if own_bucket else "nodes-deleted-served-borrowed",
                      "nodes entry %040x is not (any more) a node of the routing table" % key[0])]
-        if fresh and alln[key]["inact"] >= 5:
-            return [("nodes-not-live", "nodes entry is a bad node although the list was built for this reply")]
+        if alln[key]["inact"] >= 5:
+            return [("nodes-not-live" if fresh else "nodes-bad-served",
+                     "nodes entry %040x is a bad node (five failed queries)" % key[0])]
     return []
 
 
@@ -279,8 +280,42 @@ def check_dgram(f, res, own, cur, prev, now, store, over, table):
     return bad
 
 
+def oracle_search(case, line):
+    """dht::DhtSearch unit: never more than `concurrency` queries outstanding; a contact is handed out
+    only while uncontacted, i.e. at most once per time it was offered; hand-outs <= offers"""
+    if line.startswith("CRASH TIMEOUT"):
+        return [("hang", "the implementation did not finish this case within the watchdog limit")]
+    if line.startswith("CRASH") or "BADCASE" in line or "BADOP" in line:
+        return [("crash", "DhtSearch crashed: " + line[-200:])]
+    ops = case.split()[2:]
+    parts = line.split(" | ")
+    bad = []
+    offered = {}
+    handed = {}
+    for o, p in zip(ops, parts):
+        if p.startswith("ERR:"):
+            break
+        res = p[2:p.rindex("#")]
+        f = o.split(",")
+        if f[0] == "a" and res == "1":
+            offered[f[1]] = offered.get(f[1], 0) + 1
+        if f[0] == "g" and res != "none":
+            handed[res] = handed.get(res, 0) + 1
+            if handed[res] > offered.get(res, 0):
+                bad.append(("search-contact-twice", "a contact was handed out more often than it was offered"))
+    m = re.search(r"END n=(\d+) p=(\d+) c=(\d+) r=(\d+) k=(\d+)", line)
+    if m:
+        if int(m.group(2)) > int(m.group(5)):
+            bad.append(("search-concurrency", "more queries pending than the concurrency limit"))
+        if int(m.group(3)) != sum(handed.values()) or int(m.group(3)) > sum(offered.values()):
+            bad.append(("search-measure", "contacted counter differs from the hand-outs or exceeds the offers"))
+    return bad
+
+
 def oracle(case, line):
     """Property C15 (unit level) evaluated on ONE implementation output line."""
+    if case.startswith("S "):
+        return oracle_search(case, line)
     if line.startswith("CRASH TIMEOUT"):
         return [("hang", "the implementation did not finish this case within the watchdog limit")]
     if line.startswith("CRASH") or "ERR:" in line or "BADCASE" in line or "BADOP" in line:
@@ -469,7 +504,7 @@ def run(rep, tier, seed, replay):
     for i, case in enumerate(cases):
         m = mo[i] if i < len(mo) else "MISSING"
         o = io[i] if i < len(io) else "MISSING"
-        nevals += max(0, len(case.split()) - 5)
+        nevals += max(0, len(case.split()) - (2 if case.startswith("S ") else 5))
         if o.split("END ")[-1].count(" B[") >= 2 or " v=" in o or "U:r t=" in o:
             nontrivial.add(hashlib.sha1(case.encode()).digest())
         if len(samples) < 4 and i % 61 == 7:
